@@ -7,9 +7,10 @@
    "frequency and payload come from the same cell". *)
 From Coq Require Import List Arith ZArith QArith Qabs Bool String.
 From PyOMA.Base Require Import Argmin.
-From PyOMA.Model Require Import M_mpe.
-From PyOMA.Proofs Require Import P_mpe.
+From PyOMA.Model Require Import M_mpe M_mpe_class.
+From PyOMA.Proofs Require Import P_mpe P_mpe_class.
 Import ListNotations.
+Open Scope list_scope.
 Open Scope Q_scope.
 
 (* which order goes with which request: one order for all, or the j-th order for the j-th request *)
@@ -134,6 +135,180 @@ Proof. exact (@plscf_present_blind). Qed.
 Theorem C11_isclose_spec : forall rtol a b, isclose rtol a b = true <-> Qabs (a - b) <= atol + rtol * Qabs b.
 Proof. exact isclose_spec. Qed.
 
+(* ---------------------------------------------------------------------------------------------------------
+   THROUGH THE CLASSES (Model/M_mpe_class.v: SSIdat.mpe, inherited by SSIcov / SSIdat_MS / SSIcov_MS, and pLSCF.mpe, inherited
+   by pLSCF_MS, reached by setup.mpe(name, ...)).  X, S = entries of the damping and shape tables; CF, CX, CS = entries of
+   the three covariance tables (present when calc_unc=True).  The stored arrays are separate lists here, so "never a
+   mixture" reads: position k of EVERY stored array is the content of the k-th selected cell, the same cell list for all. *)
+
+(* the hand-over: result tables, order (a column index: ordmin, step, ordmax do not enter) and rtol exactly as they are;
+   the covariance tables iff the object has them; pLSCF: no covariances, and the routine's default band 0.05 *)
+Theorem C11_class_handover : forall (X S CF CX CS:Type) (T:tables X S CF CX CS) rp freq ord rtol,
+  ssi_args T rp freq ord rtol =
+    {| fa_freq := freq; fa_Fn := Fn_poles T; fa_Xi := Xi_poles T; fa_Phi := Phi_poles T; fa_order := ord; fa_Lab := Lab T;
+       fa_rtol := rtol; fa_deltaf := 1 # 20; fa_cov := cov_poles T |} /\
+  plscf_args T rp freq ord rtol =
+    {| fa_freq := freq; fa_Fn := Fn_poles T; fa_Xi := Xi_poles T; fa_Phi := Phi_poles T; fa_order := ord; fa_Lab := Lab T;
+       fa_rtol := rtol; fa_deltaf := 1 # 20; fa_cov := None |}.
+Proof. exact class_handover. Qed.
+
+(* the method, every outcome: success = the object has tables, the routine succeeded on the handed-over arguments, ITS results
+   are what is stored, sel_freq / order_in / rtol are written to the run parameters, ordmin / ordmax / step and the tables stay;
+   ValueError("Run algorithm first") iff there are no tables; otherwise the routine's own exception *)
+Theorem C11_class_mpe_outcome : forall (X S CF CX CS:Type) args f (A:algo X S CF CX CS) freq ord rtol,
+  match class_mpe args f A freq ord rtol with
+  | COk A' => exists T R, a_tabs A = Some T /\ f (args T (a_rp A) freq ord rtol) = Ok R /\ a_res A' = Some R /\
+                          params_stored A A' freq ord rtol
+  | CErr NotRun => a_tabs A = None
+  | CErr (FunErr e) => exists T, a_tabs A = Some T /\ f (args T (a_rp A) freq ord rtol) = Err e
+  | CErr NoAlg => False
+  end.
+Proof. exact class_mpe_outcome. Qed.
+
+(* EXPLICIT ORDER, SSI classes: order_out is the order asked for; request by request the closest retained pole of the
+   request's own column is selected iff np.isclose to that request; Fn, Xi, Phi and - exactly when the object has covariance
+   tables - Fn_cov, Xi_cov, Phi_cov hold at position k the content of the k-th selected cell of their own table *)
+Theorem C11_class_ssi_explicit : forall (X S CF CX CS:Type) (A A':algo X S CF CX CS) freq eo rtol,
+  ssi_class_mpe A freq (Explicit eo) rtol = COk A' ->
+  exists T R, a_tabs A = Some T /\ a_res A' = Some R /\ params_stored A A' freq (Explicit eo) rtol /\
+    (r_order_out R = PExp (order_out_explicit eo) /\
+     exists sels, pick_all (Fn_poles T) rtol (requests freq eo) = Ok sels /\
+       Forall2 (fun req sel => exists c col r d p,
+                  snd req = Some c /\ getcol (Fn_poles T) c = Some col /\ is_first_argmin (dists col (fst req)) r d /\
+                  nth_error col r = Some (Some p) /\ cell (Fn_poles T) r c = Some (Some p) /\
+                  (Qabs (p - fst req) <= atol + rtol * Qabs (fst req) -> sel = Some (r,c)) /\
+                  (atol + rtol * Qabs (fst req) < Qabs (p - fst req) -> sel = None)) (requests freq eo) sels /\
+       Forall2 (fun rc f => cell (Fn_poles T) (fst rc) (snd rc) = Some (Some f)) (somes sels) (r_Fn R) /\
+       Forall2 (fun rc x => cell (Xi_poles T) (fst rc) (snd rc) = Some x) (somes sels) (r_Xi R) /\
+       Forall2 (fun rc s => cell (Phi_poles T) (fst rc) (snd rc) = Some s) (somes sels) (r_Phi R)) /\
+    forall sels, pick_all (Fn_poles T) rtol (requests freq eo) = Ok sels ->
+      match cov_poles T, r_cov R with
+      | None, None => True
+      | Some (F, Xc, Sc), Some (fc, xc, sc) =>
+          Forall2 (fun rc a => cell F (fst rc) (snd rc) = Some a) (somes sels) fc /\
+          Forall2 (fun rc a => cell Xc (fst rc) (snd rc) = Some a) (somes sels) xc /\
+          Forall2 (fun rc a => cell Sc (fst rc) (snd rc) = Some a) (somes sels) sc
+      | _, _ => False
+      end.
+Proof. exact class_ssi_explicit. Qed.
+
+(* EXPLICIT ORDER, pLSCF classes (the present code and the conforming one alike) *)
+Theorem C11_class_plscf_explicit : forall (X S CF CX CS:Type) conf (A A':algo X S CF CX CS) freq eo rtol,
+  plscf_class_mpe conf A freq (Explicit eo) rtol = COk A' ->
+  exists T R, a_tabs A = Some T /\ a_res A' = Some R /\ params_stored A A' freq (Explicit eo) rtol /\
+    (r_order_out R = PExp (order_out_explicit eo) /\
+     exists sels, pick_all (Fn_poles T) rtol (requests freq eo) = Ok sels /\
+       Forall2 (fun req sel => exists c col r d p,
+                  snd req = Some c /\ getcol (Fn_poles T) c = Some col /\ is_first_argmin (dists col (fst req)) r d /\
+                  nth_error col r = Some (Some p) /\ cell (Fn_poles T) r c = Some (Some p) /\
+                  (Qabs (p - fst req) <= atol + rtol * Qabs (fst req) -> sel = Some (r,c)) /\
+                  (atol + rtol * Qabs (fst req) < Qabs (p - fst req) -> sel = None)) (requests freq eo) sels /\
+       Forall2 (fun rc f => cell (Fn_poles T) (fst rc) (snd rc) = Some (Some f)) (somes sels) (r_Fn R) /\
+       Forall2 (fun rc x => cell (Xi_poles T) (fst rc) (snd rc) = Some x) (somes sels) (r_Xi R) /\
+       Forall2 (fun rc s => cell (Phi_poles T) (fst rc) (snd rc) = Some s) (somes sels) (r_Phi R)) /\
+    r_cov R = None.
+Proof. exact class_plscf_explicit. Qed.
+
+(* FIND_MIN, SSI classes: the stored order_out i is the LEAST column at which every request has exactly one distinct stable
+   pole in its band, isclose to it; there are rows/poles (r_k, p_k), the k-th answering the k-th request from column i, with
+   Fn[k] == p_k and Xi[k], Phi[k] and (iff the object has them) the three covariances taken from cell (r_k, i) of their
+   tables; order_out None iff no column qualifies, and then every stored array is empty *)
+Theorem C11_class_ssi_find_min : forall (X S CF CX CS:Type) (A A':algo X S CF CX CS) freq rtol,
+  ForallOrdPairs (fun f g => f + rtol < g - rtol) freq ->
+  (forall f g, In f freq -> In g freq -> f = g \/ rtol + (atol + rtol * Qabs g) < Qabs (f - g)) ->
+  ssi_class_mpe A freq FindMin rtol = COk A' ->
+  exists T R, a_tabs A = Some T /\ a_res A' = Some R /\ params_stored A A' freq FindMin rtol /\
+    match r_order_out R with
+    | PExp (OutInt i) =>
+        (i < ncols (Fn_poles T))%nat /\ qualifies (inb rtol) 1 (Lab T) (Fn_poles T) freq rtol i /\
+        (forall i', (i' < i)%nat -> ~ qualifies (inb rtol) 1 (Lab T) (Fn_poles T) freq rtol i') /\
+        exists rps : list (nat * Q),
+          Forall2 (fun f rp => stable_at 1 (Lab T) (Fn_poles T) i (fst rp) (snd rp) /\ region (inb rtol) f (snd rp) /\
+                               isclose rtol (snd rp) f = true) freq rps /\
+          Forall2 (fun rp fo => fo == snd rp) rps (r_Fn R) /\
+          from_cells3 T R (map (fun rp => (fst rp, i)) rps) /\ from_cells_cov T R (map (fun rp => (fst rp, i)) rps)
+    | PExp OutNone =>
+        r_Fn R = [] /\ r_Xi R = [] /\ r_Phi R = [] /\ from_cells_cov T R [] /\
+        forall i', (i' < ncols (Fn_poles T))%nat -> ~ qualifies (inb rtol) 1 (Lab T) (Fn_poles T) freq rtol i'
+    | _ => False
+    end.
+Proof. exact class_ssi_find_min. Qed.
+
+(* the vocabulary of the two statements above, unfolded once *)
+Theorem C11_from_cells_unfold : forall (X S CF CX CS:Type) (T:tables X S CF CX CS) (R:results X S CF CX CS) cells,
+  (from_cells3 T R cells <->
+     Forall2 (fun rc x => cell (Xi_poles T) (fst rc) (snd rc) = Some x) cells (r_Xi R) /\
+     Forall2 (fun rc s => cell (Phi_poles T) (fst rc) (snd rc) = Some s) cells (r_Phi R)) /\
+  (from_cells_cov T R cells <->
+     match cov_poles T, r_cov R with
+     | None, None => True
+     | Some (F, Xc, Sc), Some (fc, xc, sc) =>
+         Forall2 (fun rc a => cell F (fst rc) (snd rc) = Some a) cells fc /\
+         Forall2 (fun rc a => cell Xc (fst rc) (snd rc) = Some a) cells xc /\
+         Forall2 (fun rc a => cell Sc (fst rc) (snd rc) = Some a) cells sc
+     | _, _ => False
+     end).
+Proof. intros. split; reflexivity. Qed.
+
+(* FIND_MIN, pLSCF classes as the property wants it (stable = label 1, the routine's default band 0.05, which the class
+   does not let the caller change) *)
+Theorem C11_class_plscf_find_min_conforming : forall (X S CF CX CS:Type) (A A':algo X S CF CX CS) freq rtol,
+  ForallOrdPairs (fun f g => f + (1#20) <= g - (1#20)) freq ->
+  (forall f g, In f freq -> In g freq -> f = g \/ (1#20) + (atol + rtol * Qabs g) <= Qabs (f - g)) ->
+  plscf_class_mpe true A freq FindMin rtol = COk A' ->
+  exists T R, a_tabs A = Some T /\ a_res A' = Some R /\ params_stored A A' freq FindMin rtol /\
+    match r_order_out R with
+    | PExp (OutInt i) =>
+        (i < ncols (Fn_poles T))%nat /\ qualifies (inbs (1#20)) 1 (Lab T) (Fn_poles T) freq rtol i /\
+        (forall i', (i' < i)%nat -> ~ qualifies (inbs (1#20)) 1 (Lab T) (Fn_poles T) freq rtol i') /\
+        exists rps : list (nat * Q),
+          Forall2 (fun f rp => stable_at 1 (Lab T) (Fn_poles T) i (fst rp) (snd rp) /\ region (inbs (1#20)) f (snd rp) /\
+                               isclose rtol (snd rp) f = true) freq rps /\
+          Forall2 (fun rp fo => fo == snd rp) rps (r_Fn R) /\
+          from_cells3 T R (map (fun rp => (fst rp, i)) rps) /\ r_cov R = None
+    | PExp OutNone =>
+        r_Fn R = [] /\ r_Xi R = [] /\ r_Phi R = [] /\ r_cov R = None /\
+        forall i', (i' < ncols (Fn_poles T))%nat -> ~ qualifies (inbs (1#20)) 1 (Lab T) (Fn_poles T) freq rtol i'
+    | _ => False
+    end.
+Proof. exact class_plscf_find_min_conforming. Qed.
+
+(* the PRESENT pLSCF classes on tables without a label 7 (gen.SC_apply writes 0 and 1 only): find_min stores no pole at all
+   and order_out = number of orders - 2, whatever is asked (the known finding, seen through the class) *)
+Theorem C11_class_plscf_present_blind : forall (X S CF CX CS:Type) (A A':algo X S CF CX CS) freq rtol,
+  (forall T, a_tabs A = Some T -> Forall (Forall (fun l => l <> 7%Z)) (Lab T)) ->
+  plscf_class_mpe false A freq FindMin rtol = COk A' ->
+  exists T R, a_tabs A = Some T /\ a_res A' = Some R /\
+    r_Fn R = [] /\ r_Xi R = [] /\ r_Phi R = [] /\ r_cov R = None /\
+    r_order_out R = PZ (Z.of_nat (ncols (Fn_poles T) - 1) - 1)%Z.
+Proof. exact class_plscf_present_blind. Qed.
+
+(* no exception through the SSI classes on rectangular tables (explicit orders: each requested column has a retained pole) *)
+Theorem C11_class_ssi_total : forall (X S CF CX CS:Type) (A:algo X S CF CX CS) T n m freq ord rtol,
+  a_tabs A = Some T ->
+  (rect n m (Fn_poles T) /\ rect n m (Xi_poles T) /\ rect n m (Phi_poles T) /\ rect n m (Lab T) /\
+   match cov_poles T with None => True | Some (F, Xc, Sc) => rect n m F /\ rect n m Xc /\ rect n m Sc end) ->
+  match ord with
+  | Explicit eo => Forall (fun req => exists c r p, snd req = Some c /\ cell (Fn_poles T) r c = Some (Some p)) (requests freq eo)
+  | FindMin => True
+  end ->
+  exists A', ssi_class_mpe A freq ord rtol = COk A'.
+Proof. exact class_ssi_total. Qed.
+
+(* setup.mpe(name, ...): exactly the algorithm registered under that name is replaced, by the outcome of its own class
+   method; every other algorithm of the setup is untouched; KeyError iff no algorithm has that name; otherwise the
+   exception of that algorithm's method *)
+Theorem C11_setup_mpe_frame : forall (X S CF CX CS:Type) conf (st:list (string * alg X S CF CX CS)) name freq ord rtol,
+  match setup_mpe conf st name freq ord rtol with
+  | COk st' => exists pre g g' post, st = pre ++ (name, g) :: post /\ st' = pre ++ (name, g') :: post /\
+                 (forall n h, In (n, h) pre -> n <> name) /\ alg_mpe conf g freq ord rtol = COk g'
+  | CErr NoAlg => forall n h, In (n, h) st -> n <> name
+  | CErr e => exists pre g post, st = pre ++ (name, g) :: post /\ (forall n h, In (n, h) pre -> n <> name) /\
+                 alg_mpe conf g freq ord rtol = CErr e
+  end.
+Proof. exact setup_mpe_frame. Qed.
+
+
 Print Assumptions C11_requests_int.
 Print Assumptions C11_requests_list.
 Print Assumptions C11_mpe_whole.
@@ -147,6 +322,16 @@ Print Assumptions C11_plscf_find_min_conforming.
 Print Assumptions C11_plscf_find_min_refuted.
 Print Assumptions C11_plscf_present_blind.
 Print Assumptions C11_isclose_spec.
+Print Assumptions C11_class_handover.
+Print Assumptions C11_class_mpe_outcome.
+Print Assumptions C11_class_ssi_explicit.
+Print Assumptions C11_class_plscf_explicit.
+Print Assumptions C11_class_ssi_find_min.
+Print Assumptions C11_from_cells_unfold.
+Print Assumptions C11_class_plscf_find_min_conforming.
+Print Assumptions C11_class_plscf_present_blind.
+Print Assumptions C11_class_ssi_total.
+Print Assumptions C11_setup_mpe_frame.
 
 (* ---------------------------------------------------------------------------------------------------------
    a non-trivial concrete instance: 4 rows x 4 orders, two modes near 5 and 10 Hz, a spurious pole at 7.5, the 10 Hz
@@ -182,3 +367,24 @@ Example C11_ex_explicit :
   showRes (ssi_mpe ex_Fn (id_tab 4 4) ex_Lab ex_freq (Explicit (OList [2;1]%nat)) ex_rtol) = "O 5/1@2 10/1@5|L 2 1"%string /\
   showRes (ssi_mpe ex_Fn (id_tab 4 4) ex_Lab ex_freq (Explicit (OInt 0)) ex_rtol) = "O 5/1@0|I 0"%string.
 Proof. split; vm_compute; reflexivity. Qed.
+
+(* through the classes, the same table in an object run with ordmin = 2, step = 1, covariance tables present (every moved
+   table holds tag * 1000 + cell number; Xi = 1, Phi = 2, Fn_cov = 3, Xi_cov = 4, Phi_cov = 5): find_min stores order 3 and,
+   in every array, cells 3 and 7; the explicit list [2; 1] stores cells 2 and 5; ordmin does not shift anything *)
+Example C11_ex_class :
+  showAlgo (ssi_class_mpe (mk_algo (mk_tables ex_Fn ex_Lab 4 4 true) 2 10 1) ex_freq FindMin ex_rtol)
+    = "O 5/1 10/1|find_min|1/8|2 10 1|161/32 10/1|1003 1007|2003 2007|I 3|3003 3007;4003 4007;5003 5007"%string /\
+  showAlgo (ssi_class_mpe (mk_algo (mk_tables ex_Fn ex_Lab 4 4 true) 2 10 1) ex_freq (Explicit (OList [2;1]%nat)) ex_rtol)
+    = "O 5/1 10/1|L 2 1|1/8|2 10 1|5/1 10/1|1002 1005|2002 2005|L 2 1|3002 3005;4002 4005;5002 5005"%string /\
+  showAlgo (plscf_class_mpe true (mk_algo (mk_tables ex_Fn ex_Lab 4 4 false) 0 4 1) ex_freq FindMin ex_rtol)
+    = "O 5/1 10/1|find_min|1/8|0 4 1|161/32 10/1|1003 1007|2003 2007|I 3|N"%string /\
+  showAlgo (plscf_class_mpe false (mk_algo (mk_tables ex_Fn ex_Lab 4 4 false) 0 4 1) ex_freq FindMin ex_rtol)
+    = "O 5/1 10/1|find_min|1/8|0 4 1||||I 2|N"%string.
+Proof. repeat split; vm_compute; reflexivity. Qed.
+
+(* the hypotheses of C11_class_ssi_total hold for that object *)
+Example C11_ex_class_rect :
+  let T := mk_tables ex_Fn ex_Lab 4 4 true in
+  rect 4 4 (Fn_poles T) /\ rect 4 4 (Xi_poles T) /\ rect 4 4 (Phi_poles T) /\ rect 4 4 (Lab T) /\
+  match cov_poles T with None => True | Some (F, Xc, Sc) => rect 4 4 F /\ rect 4 4 Xc /\ rect 4 4 Sc end.
+Proof. cbv zeta. unfold rect. repeat split; repeat constructor. Qed.
